@@ -123,7 +123,7 @@ func c05genDest(G *simrt.Tape, i int) c05dest {
 	is4 := ip.To4() != nil
 	switch {
 	case form == 0 && is4: // IPv4-mapped IPv6 address (type 4)
-		d.str = fmt.Sprintf("[::ffff:%s]:%d", ip.To4(), port)
+		d.str = fmt.Sprintf("RAW6:[::ffff:%s]:%d", ip.To4(), port)
 		d.label = "mapped"
 	case form == 1: // IP literal carried as a domain name (type 3)
 		d.str = "DOMAIN:" + net.JoinHostPort(ip.String(), fmt.Sprint(port))
@@ -169,7 +169,21 @@ func c05socks(s string) []byte {
 		b = append(b, host...)
 		return append(b, byte(pn>>8), byte(pn))
 	}
+	if strings.HasPrefix(s, "RAW6:") { // 16-byte form (type 4) whatever the address
+		host, port, _ := net.SplitHostPort(s[len("RAW6:"):])
+		var pn int
+		fmt.Sscanf(port, "%d", &pn)
+		b := append([]byte{4}, net.ParseIP(host).To16()...)
+		return append(b, byte(pn>>8), byte(pn))
+	}
 	return socksAddr(s)
+}
+
+// c05literal returns the IP a destination text names literally (nil for host names).
+func c05literal(str string) net.IP {
+	str = strings.TrimPrefix(strings.TrimPrefix(str, "DOMAIN:"), "RAW6:")
+	host, _, _ := net.SplitHostPort(str)
+	return net.ParseIP(host)
 }
 
 func runC05(rc *RunCtx) {
@@ -263,38 +277,7 @@ func runC05(rc *RunCtx) {
 		}
 	}
 	// ---- MUST-ALLOW: ordinary public addresses are not rejected ----
-	// UDP: walk the client's datagrams as the proxy processed them.
-	if len(mu.UDP) > 0 {
-		// The association was created by the first datagram that was forwarded;
-		// from then on every datagram of the client is reported, in order.
-		K := -1
-		for _, d := range w.Dgrams {
-			if !d.FromSock.Foreign && d.FromSock != usrv.Sock {
-				fmt.Sscanf(idOf(d.Payload), "u%d", &K)
-				break
-			}
-		}
-		var calls []UCall
-		for _, c := range mu.UDP[0].Calls {
-			if c.Kind == "fromclient" {
-				calls = append(calls, c)
-			}
-		}
-		for j, c := range calls {
-			i := K + j
-			if K < 0 || i >= nU {
-				break
-			}
-			d := dests[i]
-			if d.label == "ip" || d.label == "mapped" || d.label == "literal-domain" {
-				host, _, _ := net.SplitHostPort(strings.TrimPrefix(d.str, "DOMAIN:"))
-				ip := net.ParseIP(host)
-				if ip != nil && c05class(ip) == "allow" && strings.HasPrefix(c.Status, "ERR_ADDRESS") {
-					rc.Failf("udp-public-rejected", "datagram %d to ordinary public address %s was rejected with %s", i, d.str, c.Status)
-				}
-			}
-		}
-	}
+	// (ground truth is the ledger: was the datagram forwarded, was the address dialed)
 	fwd := map[int]bool{}
 	for _, d := range w.Dgrams {
 		if !d.FromSock.Foreign && d.FromSock != usrv.Sock {
@@ -307,8 +290,7 @@ func runC05(rc *RunCtx) {
 	for i := 0; i < nU; i++ {
 		d := dests[i]
 		if d.label == "ip" || d.label == "mapped" || d.label == "literal-domain" {
-			host, _, _ := net.SplitHostPort(strings.TrimPrefix(d.str, "DOMAIN:"))
-			if ip := net.ParseIP(host); ip != nil && c05class(ip) == "allow" && !fwd[i] {
+			if ip := c05literal(d.str); ip != nil && c05class(ip) == "allow" && !fwd[i] {
 				rc.Failf("udp-public-not-forwarded", "datagram %d to ordinary public address %s was not forwarded", i, d.str)
 			}
 		}
@@ -321,15 +303,18 @@ func runC05(rc *RunCtx) {
 		if !(d.label == "ip" || d.label == "mapped" || d.label == "literal-domain") {
 			continue
 		}
-		host, _, _ := net.SplitHostPort(strings.TrimPrefix(d.str, "DOMAIN:"))
-		ip := net.ParseIP(host)
+		ip := c05literal(d.str)
 		if ip == nil || c05class(ip) != "allow" {
 			continue
 		}
-		for _, r := range tsrv.M.tcpFor(tc.c.Rec.ID) {
-			if cl := r.first("closed"); cl != nil && strings.HasPrefix(cl.Status, "ERR_ADDRESS") {
-				rc.Failf("tcp-public-rejected", "connection to ordinary public address %s was rejected with %s", d.str, cl.Status)
+		dialed := false
+		for _, dr := range w.Dials {
+			if dr.Control == nil && dr.Port == 1000+tc.i && dr.IP.Equal(ip) {
+				dialed = true
 			}
+		}
+		if !dialed {
+			rc.Failf("tcp-public-rejected", "connection %d to ordinary public address %s: the address was never dialed", tc.i, d.str)
 		}
 	}
 	rc.Nontrivial = true
